@@ -44,6 +44,18 @@ def mechanism(sc, va, vb, pa, pb, d):
                 names = {e[0] if not e[0] in ("metric", "log") else e[1] for e in (x, y) if e is not None}
                 if names <= {"br.cancel", "br.failure", "circuit_opened"}:
                     return "final-exception-is-nested-CircuitOpenError"
+    # KF4: a caller callback raised while a RESULT-caused failure was being handled; execute() runs that code inside
+    # the operation's try block and treats the error as an exception failure of the attempt, call() propagates it
+    f = sc.get("fault")
+    if f and f.get("kind") == "cb" and va.is_execute != vb.is_execute:
+        ve = va if va.is_execute else vb
+        seg = None
+        for s_ in ve.segs:
+            if any(e[0] == "fault" for e in s_.events):
+                seg = s_
+                break
+        if seg is not None and seg.out[0] == "res":
+            return "callback-error-while-handling-result-failure-treated-as-attempt-failure-by-execute"
     if x is None or y is None:
         return "trace-length-differs:" + (x or y)[0]
     if x[0] != y[0]:
@@ -98,7 +110,7 @@ def features(sc):
     if any(c.get("abort_at") is not None for c in sc["calls"]):
         f.append("abort")
     if sc.get("fault"):
-        f.append("hook-fault")
+        f.append("hook-fault" if sc["fault"]["kind"] == "hook" else "callback-fault")
     if any(o[0] == "sp" for c in sc["calls"] for o in c["outcomes"]):
         f.append("special-exception")
     if cfg.get("legacy"):
@@ -119,6 +131,10 @@ def work(ctx, tier):
             sc["cfg"]["no_retry"] = True
         if k % 5 == 0:
             sc["fault"] = {"kind": "hook", "hook": rng.choice(["metric", "log", "before_sleep"]), "at": rng.choice([0, 1, 2, "always"]), "exc": rng.choice(HOOK_EXCS)}
+        elif k % 5 == 1:
+            # "the same behaviour of ... callbacks" includes a caller callback that raises at its i-th invocation; only callbacks
+            # whose invocation counts the property itself lists (strategy calls, sleeps, handler consultations) are used
+            sc["fault"] = {"kind": "cb", "cb": rng.choice(["strategy", "strategy", "sleeper", "handler"]), "at": rng.choice([0, 0, 1, 2]), "exc": rng.choice(["RuntimeError", "ValueError", "KeyError"])}
         if sc["cfg"].get("breaker"):
             ents = list(rig.BREAKER_ENTRIES)
         else:
@@ -147,7 +163,7 @@ def conclude(ctx):
         floors["pair_family:" + f] = (ctx.cnt["pair_family:" + f], 500)
     for f in ("cc", "cx", "xc", "xx"):
         floors["pair_delivery:" + f] = (ctx.cnt["pair_delivery:" + f], 100)
-    for f in ("budget", "breaker", "handler", "before_sleep", "default-sleeper", "abort", "hook-fault", "special-exception", "legacy-strategy", "multi-call", "no-retry"):
+    for f in ("budget", "breaker", "handler", "before_sleep", "default-sleeper", "abort", "hook-fault", "callback-fault", "special-exception", "legacy-strategy", "multi-call", "no-retry"):
         floors["feature:" + f] = (ctx.cnt["feature:" + f], 10)
     return dict(
         rule=(
@@ -162,6 +178,7 @@ def conclude(ctx):
             "classifier call counts and attempt hooks are not among the property's observables and are not projected",
             "call() raising the final scripted exception object is identified with the execute() outcome that carries it",
             "KF2 (final nested CircuitOpenError accounted differently by call() and execute()) is recognised only by that mechanism",
+            "KF4 (a caller callback raising while a result-caused failure is handled: execute() treats it as an attempt failure, call() propagates it) is recognised only by that mechanism",
         ],
         exhaustive=False,
     )
